@@ -16,6 +16,13 @@ pub broadcast proof fn lemma_parse_bounds_ser(d: Seq<u8>, index: int)
     reveal(spec_parse_serial);
     lemma_hdr_size_bounds(d[4]);
 }
+// s.skip(a).skip(b) == s.skip(a + b), stated once here so that callers need no sequence extensionality of their own
+pub proof fn lemma_skip_skip(s: Seq<u8>, a: int, b: int)
+    requires 0 <= a, 0 <= b, a + b <= s.len(),
+    ensures s.skip(a).skip(b) == s.skip(a + b), s.skip(a).len() == s.len() - a,
+{
+    assert(s.skip(a).skip(b) =~= s.skip(a + b));
+}
 pub proof fn lemma_hdr_size_bounds(h: u8)
     ensures 4 <= hdr_size(h) <= 26,
 {}
@@ -35,7 +42,7 @@ pub trait VBufRead: Sized {
             final(self).unread() == old(self).unread(),
             r is Ok,
             r->Ok_0@.len() == final(self).avail(),
-            r->Ok_0@.is_prefix_of(old(self).unread()),
+            final(self).avail() <= old(self).unread().len(),
             forall|index: int| #[trigger] spec_parse_storage(r->Ok_0@, index) == spec_parse_storage(old(self).unread(), index),
             forall|index: int| #[trigger] spec_parse_serial(r->Ok_0@, index) == spec_parse_serial(old(self).unread(), index),
             sh_pat(r->Ok_0@, 0) == sh_pat(old(self).unread(), 0);
@@ -159,15 +166,15 @@ impl<'a, R: VBufRead> DltMessageIterator<'a, R> {
 //@|        }), // O:next.stop
 //@|    decreases u0.len() - k,
 //@   hint before 1 `self.detected_storage_header = true;`
-//@|    proof { assert(u0.skip(k).skip(res as int) =~= u0.skip(k + res)); }
+//@|    proof { lemma_skip_skip(u0, k, res as int); }
 //@   hint before 1 `self.reader.consume(1);`
-//@|    proof { assert(u0.skip(k).skip(1) =~= u0.skip(k + 1)); }
+//@|    proof { lemma_skip_skip(u0, k, 1); }
 //@   hint after 1 `self.reader.consume(1);`
 //@|    proof { k = k + 1; }
 //@   hint before 1 `self.detected_serial_header = true;`
-//@|    proof { assert(u0.skip(k).skip(res as int) =~= u0.skip(k + res)); }
+//@|    proof { lemma_skip_skip(u0, k, res as int); }
 //@   hint before 2 `self.reader.consume(1);`
-//@|    proof { assert(u0.skip(k).skip(1) =~= u0.skip(k + 1)); }
+//@|    proof { lemma_skip_skip(u0, k, 1); }
 //@   hint after 2 `self.reader.consume(1);`
 //@|    proof { k = k + 1; }
 //@ end
